@@ -31,6 +31,25 @@ type recStore struct {
 	txMode bool
 
 	fullCode map[string]string // code signature -> complete code, as minted
+
+	// what was handed to the storage layer during the current operation (C20 taint scan)
+	handed []handedItem
+}
+
+// handedItem is one string the library handed to storage: a key or a stored form value.
+type handedItem struct {
+	call, where, value string
+}
+
+func (s *recStore) hand(call, key string, req fosite.Requester) {
+	s.handed = append(s.handed, handedItem{call, "key", key})
+	if req != nil {
+		for k, vs := range req.GetRequestForm() {
+			for _, v := range vs {
+				s.handed = append(s.handed, handedItem{call, "form:" + k, v})
+			}
+		}
+	}
 }
 
 func newRecStore(epoch time.Time) *recStore {
@@ -176,6 +195,7 @@ func (s *recStore) GetClient(ctx context.Context, id string) (fosite.Client, err
 }
 
 func (s *recStore) CreateAuthorizeCodeSession(ctx context.Context, code string, req fosite.Requester) error {
+	s.hand("createCode", code, req)
 	if err := s.fault(); err != nil {
 		s.log("createCode(?,%s)=%s", ref('G', req.GetID()), resClass(err))
 		return err
@@ -187,6 +207,7 @@ func (s *recStore) CreateAuthorizeCodeSession(ctx context.Context, code string, 
 }
 
 func (s *recStore) GetAuthorizeCodeSession(ctx context.Context, code string, sess fosite.Session) (fosite.Requester, error) {
+	s.hand("getCode", code, nil)
 	if err := s.fault(); err != nil {
 		s.log("getCode(%s)=%s", keyRef('C', s.codeOrder, code), resClass(err))
 		return nil, err
@@ -200,6 +221,7 @@ func (s *recStore) GetAuthorizeCodeSession(ctx context.Context, code string, ses
 }
 
 func (s *recStore) InvalidateAuthorizeCodeSession(ctx context.Context, code string) error {
+	s.hand("invalidateCode", code, nil)
 	if err := s.fault(); err != nil {
 		s.log("invalidateCode(%s)=%s", keyRef('C', s.codeOrder, code), resClass(err))
 		return err
@@ -210,6 +232,7 @@ func (s *recStore) InvalidateAuthorizeCodeSession(ctx context.Context, code stri
 }
 
 func (s *recStore) CreatePKCERequestSession(ctx context.Context, sig string, req fosite.Requester) error {
+	s.hand("createPKCE", sig, req)
 	if err := s.fault(); err != nil {
 		s.log("createPKCE(%s,%s)=%s", ref('C', sig), ref('G', req.GetID()), resClass(err))
 		return err
@@ -221,6 +244,7 @@ func (s *recStore) CreatePKCERequestSession(ctx context.Context, sig string, req
 }
 
 func (s *recStore) GetPKCERequestSession(ctx context.Context, sig string, sess fosite.Session) (fosite.Requester, error) {
+	s.hand("getPKCE", sig, nil)
 	if err := s.fault(); err != nil {
 		s.log("getPKCE(%s)=%s", keyRef('C', s.codeOrder, sig), resClass(err))
 		return nil, err
@@ -234,6 +258,7 @@ func (s *recStore) GetPKCERequestSession(ctx context.Context, sig string, sess f
 }
 
 func (s *recStore) DeletePKCERequestSession(ctx context.Context, sig string) error {
+	s.hand("deletePKCE", sig, nil)
 	if err := s.fault(); err != nil {
 		s.log("deletePKCE(%s)=%s", keyRef('C', s.codeOrder, sig), resClass(err))
 		return err
@@ -253,6 +278,7 @@ func (s *recStore) oidcKeyRef(code string) string {
 }
 
 func (s *recStore) CreateOpenIDConnectSession(ctx context.Context, code string, req fosite.Requester) error {
+	s.hand("createOIDC", code, req)
 	s.fullCode[sigOf(code)] = code
 	if err := s.fault(); err != nil {
 		s.log("createOIDC(%s,%s)=%s", s.oidcKeyRef(code), ref('G', req.GetID()), resClass(err))
@@ -265,6 +291,7 @@ func (s *recStore) CreateOpenIDConnectSession(ctx context.Context, code string, 
 }
 
 func (s *recStore) GetOpenIDConnectSession(ctx context.Context, code string, req fosite.Requester) (fosite.Requester, error) {
+	s.hand("getOIDC", code, nil)
 	if err := s.fault(); err != nil {
 		s.log("getOIDC(%s)=%s", s.oidcKeyRef(code), resClass(err))
 		return nil, err
@@ -278,6 +305,7 @@ func (s *recStore) GetOpenIDConnectSession(ctx context.Context, code string, req
 }
 
 func (s *recStore) DeleteOpenIDConnectSession(ctx context.Context, code string) error {
+	s.hand("deleteOIDC", code, nil)
 	if err := s.fault(); err != nil {
 		s.log("deleteOIDC(%s)=%s", s.oidcKeyRef(code), resClass(err))
 		return err
@@ -290,6 +318,7 @@ func (s *recStore) DeleteOpenIDConnectSession(ctx context.Context, code string) 
 }
 
 func (s *recStore) CreateAccessTokenSession(ctx context.Context, sig string, req fosite.Requester) error {
+	s.hand("createAccess", sig, req)
 	if err := s.fault(); err != nil {
 		s.log("createAccess(?,%s)=%s", ref('G', req.GetID()), resClass(err))
 		return err
@@ -302,6 +331,7 @@ func (s *recStore) CreateAccessTokenSession(ctx context.Context, sig string, req
 }
 
 func (s *recStore) GetAccessTokenSession(ctx context.Context, sig string, sess fosite.Session) (fosite.Requester, error) {
+	s.hand("getAccess", sig, nil)
 	if err := s.fault(); err != nil {
 		s.log("getAccess(%s)=%s", keyRef('A', s.accessOrder, sig), resClass(err))
 		return nil, err
@@ -315,6 +345,7 @@ func (s *recStore) GetAccessTokenSession(ctx context.Context, sig string, sess f
 }
 
 func (s *recStore) DeleteAccessTokenSession(ctx context.Context, sig string) error {
+	s.hand("deleteAccess", sig, nil)
 	if err := s.fault(); err != nil {
 		s.log("deleteAccess(%s)=%s", keyRef('A', s.accessOrder, sig), resClass(err))
 		return err
@@ -327,6 +358,7 @@ func (s *recStore) DeleteAccessTokenSession(ctx context.Context, sig string) err
 }
 
 func (s *recStore) CreateRefreshTokenSession(ctx context.Context, sig, atSig string, req fosite.Requester) error {
+	s.hand("createRefresh", sig, req)
 	if err := s.fault(); err != nil {
 		s.log("createRefresh(?,%s,%s)=%s", ref('A', atSig), ref('G', req.GetID()), resClass(err))
 		return err
@@ -339,6 +371,7 @@ func (s *recStore) CreateRefreshTokenSession(ctx context.Context, sig, atSig str
 }
 
 func (s *recStore) GetRefreshTokenSession(ctx context.Context, sig string, sess fosite.Session) (fosite.Requester, error) {
+	s.hand("getRefresh", sig, nil)
 	if err := s.fault(); err != nil {
 		s.log("getRefresh(%s)=%s", keyRef('R', s.refreshOrder, sig), resClass(err))
 		return nil, err
@@ -352,6 +385,7 @@ func (s *recStore) GetRefreshTokenSession(ctx context.Context, sig string, sess 
 }
 
 func (s *recStore) DeleteRefreshTokenSession(ctx context.Context, sig string) error {
+	s.hand("deleteRefresh", sig, nil)
 	if err := s.fault(); err != nil {
 		s.log("deleteRefresh(%s)=%s", keyRef('R', s.refreshOrder, sig), resClass(err))
 		return err
@@ -386,6 +420,7 @@ func (s *recStore) RevokeAccessToken(ctx context.Context, requestID string) erro
 }
 
 func (s *recStore) RotateRefreshToken(ctx context.Context, requestID string, sig string) error {
+	s.hand("rotateRefresh", sig, nil)
 	if err := s.fault(); err != nil {
 		s.log("rotateRefresh(%s,%s)=%s", ref('G', requestID), keyRef('R', s.refreshOrder, sig), resClass(err))
 		return err
